@@ -60,14 +60,16 @@ impl<'tcx> Cx<'tcx> {
 
     fn path(&self, did: DefId) -> String {
         // crate-qualified, untrimmed path: "<crate>::a::b", "<krate::T as Trait>::m"
-        let p = ty::print::with_crate_prefix!(ty::print::with_no_trimmed_paths!(
-            self.tcx.def_path_str(did)
+        let p = ty::print::with_no_visible_paths!(ty::print::with_crate_prefix!(
+            ty::print::with_no_trimmed_paths!(self.tcx.def_path_str(did))
         ));
         self.fix(p)
     }
 
     fn ty_s(&self, t: Ty<'tcx>) -> String {
-        let p = ty::print::with_crate_prefix!(ty::print::with_no_trimmed_paths!(t.to_string()));
+        let p = ty::print::with_no_visible_paths!(ty::print::with_crate_prefix!(
+            ty::print::with_no_trimmed_paths!(t.to_string())
+        ));
         self.fix(p)
     }
 
@@ -142,7 +144,9 @@ impl<'tcx> Cx<'tcx> {
             Operand::Constant(c) => {
                 let t = c.const_.ty();
                 let mut s = String::from("{");
-                let disp = ty::print::with_no_trimmed_paths!(format!("{}", c.const_));
+                let disp = self.fix(ty::print::with_no_visible_paths!(ty::print::with_crate_prefix!(
+                    ty::print::with_no_trimmed_paths!(format!("{}", c.const_))
+                )));
                 let disp = if disp.len() > 200 { disp[..disp.char_indices().nth(200).map(|x| x.0).unwrap_or(disp.len())].to_string() } else { disp };
                 let _ = write!(s, "\"c\":{}", esc(&disp));
                 let _ = write!(s, ",\"ty\":{}", esc(&self.ty_s(t)));
@@ -418,10 +422,10 @@ impl<'tcx> Cx<'tcx> {
                     match fty.kind() {
                         ty::FnDef(cdid, cargs) => {
                             let _ = write!(s, ",\"fn\":{}", esc(&self.path(*cdid)));
-                            let full = self.fix(ty::print::with_crate_prefix!(
-                                ty::print::with_no_trimmed_paths!(
+                            let full = self.fix(ty::print::with_no_visible_paths!(
+                                ty::print::with_crate_prefix!(ty::print::with_no_trimmed_paths!(
                                     tcx.def_path_str_with_args(*cdid, cargs)
-                                )
+                                ))
                             ));
                             let _ = write!(s, ",\"full\":{}", esc(&full));
                             // trait method? try to resolve to the impl
